@@ -273,6 +273,13 @@ func TestC07(t *testing.T) {
 			{"for ri, ri := range lv {\nprint(ri)\n}\n", "reject", "same-name-twice-in-range-header"},
 			{"func f() {\nna, na := 1, 2\nprint(na)\n}\nf()\n", "reject", "same-name-twice-in-function"},
 			{"na, nb := 1, 2\nnb, nc := 3, 4\nprint(na, nb, nc)\n", "accept", "reuse-next-to-a-new-name"},
+			// var never re-uses a name (only := may, next to a new one)
+			{"var iv, nb int\nprint(iv, nb)\n", "reject", "var-group-with-an-existing-name"},
+			{"var nb, iv = 1, 2\nprint(iv, nb)\n", "reject", "var-group-with-values-and-an-existing-name"},
+			{"var nb, iv int = 1, 2\nprint(iv, nb)\n", "reject", "typed-var-group-with-an-existing-name"},
+			{"func f(q int) {\nvar q, nb int\nprint(q, nb)\n}\nf(1)\n", "reject", "var-group-re-using-a-parameter"},
+			{"if cv {\nvar iv, nb int\nprint(iv, nb)\n}\n", "reject", "var-group-shadowing-an-outer-name"},
+			{"var na, nb int\nvar nc, nd = 1, 2\nprint(na, nb, nc, nd)\n", "accept", "var-groups-of-new-names"},
 			{"func f(q int) {\nq := 2\n}\nf(1)\n", "reject", "parameter-redefined"},
 			{"func f(q int) {\nprint(q)\n}\nf(1)\nprint(q)\n", "reject", "parameter-used-outside"},
 			{"func f() {\nlv := 1\nprint(lv)\n}\nfunc g() {\nprint(lv)\n}\nf()\ng()\n", "reject", "local-of-other-function"},
